@@ -58,7 +58,31 @@ def make_models(variant=0):
 
         def Size(self) -> int: ...
 
+    # user dataclasses as record types: with eager annotations, and defined in a module that has
+    # `from __future__ import annotations` (every annotation a STRING that has to be resolved:
+    # seed C08_g read dataclasses.Field.type, the raw annotation)
+    import dataclasses
+    import sys
+    import types
+
+    @dataclasses.dataclass
+    class Info:
+        run: int
+        w: float
+        ok: bool
+
+    modname = f"c08_future_models_{variant}"
+    fut = types.ModuleType(modname)
+    sys.modules[modname] = fut
+    exec("from __future__ import annotations\nimport dataclasses\n"
+         "@dataclasses.dataclass\nclass InfoS:\n    run: int\n    w: float\n    ok: bool\n"
+         "    lead: 'Jet'\n", fut.__dict__)
+    fut.Jet = Jet
+    InfoS = fut.InfoS
+
     class Event:
+        def info(self) -> Info: ...
+        def infos(self) -> InfoS: ...
         def Jets(self, name: str = "j") -> Iterable[Jet]: ...
         def JColl(self) -> Coll[Jet]: ...
         def JC2(self) -> JetColl: ...
@@ -145,6 +169,11 @@ def _cases(M, E, J, Tk, it):
         ("e.n() + e.untyped()", Any), ("e.n() if e.flag() else 2", int),
         ("e.n() if e.flag() else e.met()", float), ("e.lead() if e.flag() else e.lead()", J),
         ("1", int), ("1.5", float), ("'s'", str), ("True", bool),
+        # fields of user dataclasses (eager and string annotations)
+        ("e.info().run", int), ("e.info().w", float), ("e.info().ok", bool),
+        ("e.infos().run", int), ("e.infos().w", float), ("e.infos().ok", bool), ("e.infos().lead", J),
+        ("e.infos().lead.pt()", float), ("e.infos().run + 1", int), ("e.infos().w + e.infos().run", float),
+        ("e.infos()['run']", int), ("e.info()['w']", float),
         # dictionaries / tuples
         ("{'j': e.lead(), 'm': e.met()}.j", J), ("{'j': e.lead(), 'm': e.met()}['m']", float),
         ("{'j': e.lead(), 'm': e.met()}.j.pt()", float),
